@@ -424,7 +424,17 @@ class FTPProcessorSession(BaseProcessorSession):
 
             _logger.debug('symlink {} -> {}', symlink_path, link_target)
 
-            os.symlink(link_target, symlink_path)
+            try:
+                os.symlink(link_target, symlink_path)
+            except OSError as error:
+                # The name may be listed twice or exist from an earlier
+                # run: not a reason to end the crawl.
+                _logger.warning(
+                    _('Could not create symbolic link {symlink_path}: '
+                      '{error}.'),
+                    symlink_path=symlink_path, error=error
+                )
+                return
 
             _logger.info(
                 _('Created symbolic link {symlink_path} to target {symlink_target}.'),
